@@ -16,6 +16,7 @@ import (
 	"net/url"
 
 	"github.com/saucelabs/forwarder/internal/martian"
+	"github.com/saucelabs/forwarder/internal/martian/mitm"
 	"github.com/saucelabs/forwarder/internal/vfrt"
 )
 
@@ -108,4 +109,90 @@ func vfH_C04_pipe() {
 	vfrt.Assert(rt.calls == wantRT, "pipe/round-trips-only-for-accepted-requests")
 	vfrt.Assert(vfDials == wantDials, "pipe/dials-only-for-accepted-connects")
 	vfrt.Assert(conn.Closed >= 1, "pipe/connection-closed-at-the-end")
+}
+
+//vf:assume C04-mitm: MITM enabled (the tunnel's first byte is not a TLS handshake, so the proxy serves the tunnelled plaintext HTTP itself - the same connection loop a decrypted tunnel enters after its handshake, which needs real TLS and is outside); basic auth and deny-localhost enabled; an authenticated CONNECT, then one or two inner requests each of which is authenticated / unauthenticated / authenticated for a localhost Host
+
+//vf:harness property=C04 nopanic reach=mitm-inner-forwarded,mitm-inner-407,mitm-inner-403,mitm-connect-refused steps=8000000
+func vfH_C04_mitm() {
+	const auth = "Proxy-Authorization: Basic dTpwdw==\r\n"
+	cfg := HTTPProxyConfig{}
+	cfg.Name = "fw"
+	cfg.BasicAuth = url.UserPassword("u", "pw")
+	cfg.ProxyLocalhost = DenyProxyLocalhost
+	hp := vfNewHTTPProxy(cfg)
+	hp.proxy.MITMConfig = &mitm.Config{}
+	vfDials = 0
+	rt := hp.transport.(*vfRoundTripper)
+
+	connectAuth := vfrt.Choice("connect-authenticated", 2) == 1
+	wire := "CONNECT example.com:80 HTTP/1.1\r\nHost: example.com:80\r\n"
+	if connectAuth {
+		wire += auth
+	}
+	wire += "\r\n"
+	type inner struct{ want int }
+	var inners []inner
+	n := 1 + vfrt.Choice("inner-requests", 2)
+	for i := 0; i < n; i++ {
+		switch vfrt.Choice("inner-kind", 3) {
+		case 0:
+			wire += "GET /a HTTP/1.1\r\nHost: example.com\r\n" + auth + "\r\n"
+			inners = append(inners, inner{200})
+		case 1:
+			wire += "GET /b HTTP/1.1\r\nHost: example.com\r\n\r\n"
+			inners = append(inners, inner{407})
+		case 2:
+			wire += "GET /c HTTP/1.1\r\nHost: " + vfAnyCase("localhost-case", "localhost") + ":8080\r\n" + auth + "\r\n"
+			inners = append(inners, inner{403})
+		}
+	}
+	conn := martian.NewVfConn([]byte(wire))
+	martian.VfServeConn(hp.proxy, conn)
+
+	br := bufio.NewReader(bytes.NewReader(conn.Out.Bytes()))
+	res, err := http.ReadResponse(br, &http.Request{Method: "CONNECT"})
+	vfrt.Assert(err == nil, "mitm/connect-answered")
+	if err != nil {
+		return
+	}
+	wantRT := 0
+	if !connectAuth {
+		// no tunnel: whatever follows on the connection is judged as an ordinary proxy request, on its own merits
+		vfrt.Reach("mitm-connect-refused")
+		io.ReadAll(res.Body)
+		vfrt.Assert(res.StatusCode == 407, "mitm/unauthenticated-connect-refused")
+		if res.Close {
+			inners = nil
+		}
+	} else {
+		vfrt.Assert(res.StatusCode == 200, "mitm/authenticated-connect-accepted")
+	}
+	for _, in := range inners {
+		r, err := http.ReadResponse(br, &http.Request{Method: "GET"})
+		if err != nil {
+			break
+		}
+		io.ReadAll(r.Body)
+		vfrt.Assert(r.StatusCode == in.want, "mitm/inner-request-checked-like-any-other")
+		switch in.want {
+		case 200:
+			vfrt.Reach("mitm-inner-forwarded")
+			wantRT++
+		case 407:
+			vfrt.Reach("mitm-inner-407")
+			pa := r.Header.Get("Proxy-Authenticate")
+			vfrt.Assert(len(pa) >= 5 && pa[:5] == "Basic", "mitm/407-carries-basic-challenge")
+		case 403:
+			vfrt.Reach("mitm-inner-403")
+		}
+		if r.Close {
+			break
+		}
+	}
+	vfrt.Assert(rt.calls == wantRT, "mitm/round-trips-only-for-accepted-inner-requests")
+	vfrt.Assert(vfDials == 0, "mitm/no-dial-for-an-intercepted-tunnel")
+	for _, h := range rt.headers {
+		vfrt.Assert(len(h["Proxy-Authorization"]) == 0, "mitm/client-proxy-authorization-not-forwarded")
+	}
 }
